@@ -262,9 +262,11 @@ func runJob(t *testing.T, j job, tier string, seed int64, bundle *core.Bundle, s
 				seqv = append(seqv, evs[rng.Intn(len(evs))])
 			}
 			tab, pr := core.Chain(j.chain, fmt.Sprintf("%s#%d", j.chain.Name(), c), seqv, false)
-			if pr != nil {
+			if pr != nil { // the part of the chain before the panic is still judged
 				st.Panics = append(st.Panics, *pr)
-				continue
+				if len(tab.Nodes) < 2 {
+					continue
+				}
 			}
 			addTable(bundle, st, tab)
 		}
